@@ -28,6 +28,13 @@ func richState(h http.Handler, kind int, versioned bool) (uploadID string, oldVe
 	Do(h, BodyReq("PUT", "/bkt/d", nil, []byte("dd")))
 	Do(h, Req{Method: "DELETE", Path: "/bkt/d"})
 	Do(h, BodyReq("PUT", "/bkt/p/q", nil, []byte("pq")))
+	if versioned {
+		// a key written twice whose versions were then all deleted by id
+		e1 := Do(h, BodyReq("PUT", "/bkt/e", nil, []byte("e1"))).Hdr.Get("x-amz-version-id")
+		e2 := Do(h, BodyReq("PUT", "/bkt/e", nil, []byte("e2"))).Hdr.Get("x-amz-version-id")
+		Do(h, Req{Method: "DELETE", Path: "/bkt/e", Query: url.Values{"versionId": {e2}}})
+		Do(h, Req{Method: "DELETE", Path: "/bkt/e", Query: url.Values{"versionId": {e1}}})
+	}
 	uploadID = initiate(h, "u", http.Header{})
 	uploadPart(h, "u", uploadID, 2, []byte("p2"))
 	uploadPart(h, "u", uploadID, 5, []byte("p5"))
